@@ -35,6 +35,7 @@ type Template struct {
 	NestedVar      bool // a variable inside a variable pattern
 	StarStarNotEnd bool // ** somewhere else than the last position
 	OneLetterLit   bool // a literal of exactly one letter
+	OddLitStart    bool // a literal starting with a digit, '-', '_' or '.'
 }
 
 func isIdent(r rune) bool   { return unicode.IsLetter(r) || unicode.IsNumber(r) || r == '_' || r == '-' }
@@ -160,7 +161,12 @@ func (p *parser) segment(depth int) (Seg, error) {
 		}
 		p.pos++
 		return s, nil
-	case r != -1 && unicode.IsLetter(r):
+	case r != -1 && isLiteral(r):
+		// The documented LITERAL alphabet includes digits, '-', '_' and '.';
+		// whether a literal may START with one of them is unspecified.
+		if !unicode.IsLetter(r) {
+			p.t.OddLitStart = true
+		}
 		l := p.run(isLiteral)
 		if len([]rune(l)) == 1 {
 			p.t.OneLetterLit = true
@@ -336,7 +342,7 @@ func (t *Template) Match(path string, mode Mode) []Assignment {
 		}
 	}
 	if mode == Strict {
-		if t.StarStarNotEnd || t.NestedVar || TokenCount(path) > 64 {
+		if t.StarStarNotEnd || t.NestedVar || t.OddLitStart || TokenCount(path) > 64 {
 			return nil
 		}
 	}
